@@ -207,7 +207,7 @@ fn boundary_addrs() -> Vec<u32> {
 }
 
 pub fn run(ctx: &Ctx) {
-    ctx.set_rule("(a) all 256 table rows vs bitwise long division; (b) modes_checksum vs remainder on unit vectors, pairs and proptest-random 7/14-byte frames; (c) DF17 frames with generated ME and PI = parity ^ s (s = 0 or random/low weight): accepted => s = 0, and s = 0 with an ME that decodes under DF18 => accepted; all 2^24 syndromes end-to-end on a valid base frame (thorough: two), i.e. every corruption confined to the 24 parity bits; (d) per sampled valid DF17 frame all 112 single-bit, 6216 double-bit and all burst corruptions up to L bits end-to-end, plus every burst error polynomial up to 24 (quick: 18) bits through the real modes_checksum; (e) AP overlay for DF 0/4/5/16/20/21 over boundary + random (thorough: all 2^24 for DF0/4/5) addresses x random payloads. Non-trivial = corrupted accepted frame, or overlay case with non-zero address and payload; distinct by hash.");
+    ctx.set_rule("(a) all 256 table rows vs bitwise long division; (b) modes_checksum vs remainder on unit vectors, pairs and proptest-random 7/14-byte frames; (c) DF17 frames with generated ME and PI = parity ^ s (s = 0 or random/low weight): accepted => s = 0, and s = 0 with an ME that decodes under DF18 => accepted; all 2^24 syndromes end-to-end on a valid base frame (thorough: two), i.e. every corruption confined to the 24 parity bits; (d) per sampled valid DF17 frame all 112 single-bit, 6216 double-bit and all burst corruptions up to L bits end-to-end, plus every burst error polynomial up to 24 (quick: 18) bits through the real modes_checksum; (e) AP overlay for DF 0/4/5/16/20/21 over boundary + random (thorough: all 2^24 for DF0/4/5) addresses x random payloads. (f) families of related inputs (truncated / padded copy then the frame, same payload under another header or address, one bit apart) in several orders on one thread: checksum, acceptance and address of one input must not depend on what was decoded before. Non-trivial = corrupted accepted frame, or overlay case with non-zero address and payload; distinct by hash.");
     ctx.assume("bitwise CRC-24 long division with G = 0x1FFF409 is the specification; CRC linearity ties the error-polynomial sweep to end-to-end corruption (sampled end-to-end as well)");
     // (a)
     for i in 0..256 {
@@ -350,12 +350,36 @@ pub fn run(ctx: &Ctx) {
             ctx.judge(check_overlay([0u8, 4, 5][(a % 3) as usize], &h64(&a).to_be_bytes(), a));
         }
     }
+    // (f) acceptance and the recovered address are functions of the frame alone: families of related inputs (a
+    // truncated or padded copy before the frame, the same payload under another header or address, one bit apart)
+    // evaluated in several orders on one thread
+    crate::frames::drive_families(ctx, "c02", ctx.tier.pick(120_000, 1_600_000), &gate_observable);
     let _ = parity(&[0]);
+}
+
+/// What C02 is about, for one input: the checksum, whether it is accepted, under which DF and with which address.
+pub fn gate_observable(f: &[u8]) -> String {
+    vcore::ev::catch(|| {
+        let bits = if f.first().map(|b| b & 0x80 != 0).unwrap_or(false) { 112 } else { 56 };
+        let sum = if f.len() * 8 >= bits { format!("{:?}", modes_checksum(f, bits)) } else { "short".to_string() };
+        let dec = match rs1090::decode::Message::try_from(f) {
+            Ok(m) => {
+                let v = serde_json::to_value(&m).unwrap_or(Value::Null);
+                format!("Ok df={} icao24={}", v["df"], v["icao24"])
+            }
+            Err(e) => format!("Err({e})"),
+        };
+        format!("{sum} {dec}")
+    })
+    .unwrap_or_else(|p| format!("PANIC {p}"))
 }
 
 pub fn replay(ctx: &Ctx, v: &Value) {
     ctx.eval();
     let frame = v["frame"].as_str().and_then(|h| hex::decode(h).ok()).unwrap_or_default();
+    if v["kind"] == "family" {
+        return crate::frames::replay_family(ctx, "c02", v, &gate_observable);
+    }
     let r = match v["kind"].as_str().unwrap_or("") {
         "table" => check_table_row(v["row"].as_u64().unwrap_or(0) as usize),
         "checksum" => check_checksum(&frame),
